@@ -119,6 +119,22 @@ def check(tier, seed):
                     res.violation('a queued or handed-out packet was altered by restart / filter change / further parsing',
                                   {'property': 'C11', 'input': desc, 'implementation_says': impl[:800]}, 'c11-mut2|' + mid[0])
                 cases.append(Case('ubx-op-after-queued-frame', G.ubx_cmd([(c, i), (5, 1)], ops), impl, desc, kind='after-queued/' + mid[0]))
+        # fixed corpus (no random choice): every sequence of up to three calls out of packet / empty_queue / restart /
+        # set_filter / set_filters between a queued frame and what follows it (e.g. the request loop's own
+        # process - packet - empty_queue - process); every payload ever handed out or queued is held and re-read
+        import itertools
+        fixed_mid = [('K',), ('E',), ('R',), ('F', (6, 1)), ('FS', [(6, 1), (5, 1)])]
+        fa = G.frame(6, 1, bytes(range(1, 9)))
+        for nxt in (G.frame(6, 1, b'\x09\x08\x07'), G.frame(5, 1, b'\x06\x01'), b'\xb5\x62\x0a\x04\x02', G.frame(1, 7, bytes(12)) + G.frame(6, 1, b'\xaa')):
+            for n_mid in (1, 2, 3):
+                for mids in itertools.product(fixed_mid, repeat=n_mid):
+                    ops = [('P', fa)] + list(mids) + [('P', nxt), ('K',), ('K',), ('K',)]
+                    impl = G.impl_ubx([(6, 1), (5, 1)], ops)
+                    desc = {'frame_hex': C.hexs(fa), 'calls_in_between': G.ops_tokens(list(mids)), 'then': C.hexs(nxt), 'filter': [(6, 1), (5, 1)]}
+                    if impl.endswith('MUTATED-PACKET'):
+                        res.violation('a queued or handed-out packet was altered by the calls and the parsing that followed it',
+                                      {'property': 'C11', 'input': desc, 'implementation_says': impl[:800]}, 'c11-fixed|' + ''.join(m[0] for m in mids))
+                    cases.append(Case('ubx-fixed-call-sequences', G.ubx_cmd([(6, 1), (5, 1)], ops), impl, desc, kind='fixed-calls/' + str(n_mid)))
         # the filter is a set of (class, id) PAIRS: frames combining the class of one entry with the id of another are not queued
         for _ in range(40 if tier == 'quick' else 1500):
             ents = rng.sample(G.CIDS + [(6, 0), (6, 1), (5, 1), (5, 0), (10, 4), (1, 7)], rng.randrange(2, 5))
